@@ -15,8 +15,9 @@ if not os.path.exists(WT):
 head = subprocess.run(["git", "-C", "/repo", "rev-parse", "HEAD"], capture_output=True, text=True).stdout.strip()
 sh(f"git checkout -q --detach {head} && git checkout -- . && git clean -fdq")
 readme = "\n".join(open(f).read() for f in glob.glob(os.path.join(d, "demo", "README*")))
-m = re.search(r"cargo test[^\n]*-p\s+(\S+)\s+--test\s+(\S+)", readme)
-crate, test = m.group(1), m.group(2)
+line = next(l for l in readme.split("\n") if "cargo test" in l and "--test" in l)
+crate = re.search(r"-p\s+(\S+)", line).group(1)
+test = re.search(r"--test\s+(\S+)", line).group(1)
 extra = re.search(r"cargo test[^\n]*(--features\s+\S+)", readme)
 feat = extra.group(1) if extra else ""
 src = os.path.join(d, "demo", test + ".rs")
